@@ -11,7 +11,7 @@ import z3
 
 BOUNDS = {
     "quick": "case flips of symbolic ASCII letters in scheme / host / path / query / fragment (holes of length <= 2) and of an escaped Latin-1 letter (%C3%80..9E vs %C3%A0..BE) in path / query / fragment; gl / hl items on a plain host and on youtube / facebook hosts; any port 1..65535 (symbolic 1-5 digit string); "
-             "language labels 'xx' and 'xx-yy' with symbolic letters drawn from the ISO-3166 set in front of hosts with 2 and 3 labels; gl / hl items at 3 positions with symbolic values; "
+             "language labels 'xx' and 'xx-yy' with symbolic letters drawn from the ISO-3166 set in front of hosts with 2 and 3 labels, of a host with no suffix of the bundled list (`wiki.corp.internal`) and of an IPv4 host; gl / hl items at 3 positions with symbolic values; "
              "strip_suffix=True across 10 bundled suffixes of 1-4 labels (plain / wildcard instance / private); result has no scheme / userinfo / port on the 19 shared skeletons with holes of length <= 2",
     "thorough": "holes of length <= 3",
 }
@@ -53,8 +53,8 @@ def inv(st, kind, n, strip_suffix):
             v_ = v_ * 10 + (z3.ZeroExt(11, c) - 48)
         st.assume(z3.And(z3.UGE(v_, 1), z3.ULE(v_, 65535)), "port in 1..65535")
         u, v = cat("https://x.fr/a?k=v"), cat("https://x.fr:", h, "/a?k=v")
-    elif kind in ("lang2", "lang2-3labels", "lang5"):
-        if kind == "lang5":
+    elif kind.split("-")[0] in ("lang2", "lang5"):
+        if kind.startswith("lang5"):
             if n != 4:
                 st.assume(False, "n/a")
             up = [c - 32 for c in he]
@@ -68,7 +68,8 @@ def inv(st, kind, n, strip_suffix):
             st.assume(z_and([LOW.cond(c) for c in he]), "letters")
             st.assume(member_of_concrete(mk("str", [c - 32 for c in he]), ISO_3166_1_COUNTRIES_ALPHA_2), "code in ISO set")
             lab = h
-        rest = "x.fr" if kind != "lang2-3labels" else "www.a.x.co.uk"
+        # hosts without a suffix of the bundled list (intranet name, IPv4): split_suffix answers None on them
+        rest = {"3labels": "www.a.x.co.uk", "nosuffix": "wiki.corp.internal", "ipv4": "10.0.0.12"}.get(kind.partition("-")[2], "x.fr")
         u, v = cat("http://", rest, "/p?k=v"), cat("http://", lab, ".", rest, "/p?k=v")
     elif kind == "glhl":
         st.assume(z_and([z_not(_WS_CTRL.cond(c)) for c in he]), "plain")
@@ -131,7 +132,7 @@ def items(tier):
         out.append({"fn": "inv", "params": {"kind": "escaped-case", "n": 2, "strip_suffix": ss}, "name": "escaped-case ss=%s" % ss, "weight": 40})
     for n in range(1, 6):
         out.append({"fn": "inv", "params": {"kind": "port", "n": n, "strip_suffix": bool(n % 2)}, "name": "port digits=%d" % n, "weight": 3 ** n})
-    for kind, n in (("lang2", 2), ("lang2-3labels", 2), ("lang5", 4)):
+    for kind, n in (("lang2", 2), ("lang2-3labels", 2), ("lang5", 4), ("lang2-nosuffix", 2), ("lang5-nosuffix", 4), ("lang2-ipv4", 2)):
         for ss in (False, True):
             out.append({"fn": "inv", "params": {"kind": kind, "n": n, "strip_suffix": ss}, "name": "%s ss=%s" % (kind, ss), "weight": 50})
     for i in range(1, len(SUFFIXES)):
